@@ -185,7 +185,7 @@ def _crystals():
     }
 
 
-def _reference(rng, name=None, dyadic=False):
+def _reference(rng, name=None, dyadic=False, shear=True):
     """a reference crystal and ONE neighbour shell: (system, name, a, [(cutoff/a, coordination)], supercell)."""
     cr = _crystals()
     if name is None:
@@ -204,7 +204,7 @@ def _reference(rng, name=None, dyadic=False):
         size = tuple(size)
         shells = [(cutf, coordn)]
     s0 = build(a).supersize(*size)
-    if rng.random() < (0.35 if dyadic else 0.45):
+    if rng.random() < (0.35 if dyadic else 0.45) and shear:
         sh = _shear(rng, s0, size, shells[0][0] * a, grid=64 if dyadic else None)
         if sh is not None:
             s0, tag = sh
@@ -319,11 +319,37 @@ def _system(s0, pos, vects=None, pbc=None, origin=None):
                      pbc=s0.pbc if pbc is None else pbc, symbols=s0.symbols)
 
 
-def _rand_F(rng, kind):
-    """small deformation gradient (floats) from exact rationals: Cayley rotation times (I + eps)."""
+_OFFDIAG = [(1, 0), (2, 0), (2, 1), (0, 1), (0, 2), (1, 2)]
+
+
+def _rand_F(rng, kind, where=None):
+    """small deformation gradient (floats) from exact rationals: Cayley rotation times (I + eps).
+    Sparse kinds (cells vects.F^T with every pattern of zero entries, not only full ones): 'single' = I plus ONE
+    off-diagonal entry (position `where` of _OFFDIAG, else random), 'lower' / 'upper' = triangular (each entry of the
+    triangle present with probability 0.7, optional stretch on the diagonal)."""
     def small(m):
         return Fraction(rng.randint(-m, m), 1024)
     I = [[Fraction(int(i == j)) for j in range(3)] for i in range(3)]
+    if kind in ('single', 'lower', 'upper'):
+        E = [[Fraction(0)] * 3 for _ in range(3)]
+
+        def nz():
+            return Fraction(rng.choice([-1, 1]) * rng.randint(6, 40), 1024)
+        if kind == 'single':
+            i, j = _OFFDIAG[rng.randrange(6) if where is None else where % 6]
+            E[i][j] = nz()
+        else:
+            tri = _OFFDIAG[:3] if kind == 'lower' else _OFFDIAG[3:]
+            for i, j in tri:
+                if rng.random() < 0.7:
+                    E[i][j] = nz()
+            if not any(any(r) for r in E):
+                i, j = rng.choice(tri)
+                E[i][j] = nz()
+            if rng.random() < 0.5:
+                for i in range(3):
+                    E[i][i] = small(20)
+        return [[float(I[i][j] + E[i][j]) for j in range(3)] for i in range(3)]
     if kind in ('rotation', 'general'):
         w = [small(40) for _ in range(3)]
         if not any(w):
@@ -343,6 +369,31 @@ def _rand_F(rng, kind):
     else:
         U = I
     return [[float(v) for v in r] for r in _matmul(R, U)]
+
+
+def _perm_frame(rng, np):
+    """a signed permutation of the Cartesian axes (proper or improper: left-handed cells) and a new ORDER of the box
+    vectors: the same crystal in a cell whose zero entries sit anywhere (upper-triangular, anti-triangular, ...), not
+    only in the LAMMPS positions.  Returns (R (3,3), rows)."""
+    p = list(range(3))
+    rng.shuffle(p)
+    Rm = np.zeros((3, 3))
+    for i in range(3):
+        Rm[i, p[i]] = rng.choice([1.0, -1.0])
+    rows = list(range(3))
+    rng.shuffle(rows)
+    if rng.random() < 0.4:
+        # the plain reversal x <-> z, a <-> c: a LAMMPS-style (lower-triangular) cell becomes upper-triangular
+        Rm = np.array([[0.0, 0.0, 1.0], [0.0, 1.0, 0.0], [1.0, 0.0, 0.0]]) * np.array([[rng.choice([1.0, -1.0])] for _ in range(3)])
+        rows = [2, 1, 0]
+    return Rm, rows
+
+
+def _reframed(s, Rm, rows, np, pos=None, pbc=None):
+    """system `s` (or the positions `pos` in its cell) expressed in the frame (Rm, rows) of _perm_frame."""
+    pb = s.pbc if pbc is None else pbc
+    return _system(s, (s.atoms.pos if pos is None else pos) @ Rm.T, vects=(s.box.vects @ Rm.T)[rows], origin=Rm @ s.box.origin,
+                   pbc=tuple(bool(pb[r]) for r in rows))
 
 
 def _deform(s0, F):
@@ -447,8 +498,20 @@ def _slip_case(rng, s0, a, dyadic, shells):
            'nlkind': nlkind}
     if mode == 'large':
         ip = [k for k in range(3) if k != axis]
-        how = rng.randrange(4)
+        how = rng.randrange(6)
         e = np.zeros(3)
+        if how >= 4:
+            # chosen in the FRACTIONAL basis: both in-plane box-relative components just below one half, signs independent
+            # (in a non-orthogonal cell such a vector can be much longer than its shortest periodic image although no
+            #  component reaches half a cell: 0.45 a - 0.40 b in the 120 degree cell)
+            fr_ = [rng.choice([1, -1]) * rng.choice([31, 30, 29, 28, 26, 24, 20]) / 64 for _ in range(2)]
+            uA = np.rint((fr_[0] * np.array(vects[inpl[0]]) + fr_[1] * np.array(vects[inpl[1]])) * q) / q
+            uA[axis] = 0.0
+            uB = np.zeros(3)
+            if not uA.any():
+                return None
+            out.update(uA=uA, uB=uB, du=np.where(side[:, None], uA, uB), stable=False, t='frac%+.3f%+.3f' % tuple(fr_))
+            return out
         if how == 0:
             th = rng.uniform(0, 2 * math.pi)
             e[ip[0]], e[ip[1]] = math.cos(th), math.sin(th)
@@ -458,14 +521,14 @@ def _slip_case(rng, s0, a, dyadic, shells):
             if how == 1:                                   # in-plane, perpendicular to a box vector
                 w = np.cross(w, np.eye(3)[axis])
             elif how == 2:                                 # between two box vectors
-                w2 = np.array(vects[inpl[0]] + vects[inpl[1]], dtype=float)
+                w2 = np.array(vects[inpl[0]] + rng.choice([1, 1, -1]) * vects[inpl[1]], dtype=float)
                 w2[axis] = 0.0
                 w = w2
             e = w / np.linalg.norm(w) * rng.choice([1, -1])
         reach = _ws_reach(vects, pbc, e, np)
         if not math.isfinite(reach):
             reach = 0.5 * float(np.abs(vects).max())
-        t = rng.choice([0.8, 0.9, 0.95, 0.98, 1.04])
+        t = rng.choice([0.8, 0.9, 0.95, 0.98, 1.04, 1.04, 1.2])
         uA = np.rint(t * reach * e * q) / q
         uA[axis] = 0.0
         uB = np.zeros(3)
@@ -495,6 +558,24 @@ def _slip_case(rng, s0, a, dyadic, shells):
         return None
     out.update(uA=uA, uB=uB, du=du, stable=True)
     return out
+
+
+def _frac_displacements(rng, s0, np, uniform=False):
+    """per-atom displacements chosen in the FRACTIONAL basis of the cell: every box-relative component below one half in
+    magnitude (most of them just below: 31/64 .. 22/64), signs independent.  In a non-orthogonal cell many of these
+    vectors are longer than their shortest periodic image although 'no atom crossed half a cell'.  On the dyadic grid
+    (multiples of 1/64 of box vectors)."""
+    n = s0.natoms
+
+    def comp():
+        r = rng.random()
+        m = rng.choice([31, 30, 29, 28, 26, 24, 22]) if r < 0.6 else rng.randint(0, 31) if r < 0.8 else rng.choice([0, 1, 16])
+        return rng.choice([1, -1]) * m / 64
+    if uniform:
+        f = np.tile(np.array([comp() for _ in range(3)]), (n, 1))
+    else:
+        f = np.array([[comp() for _ in range(3)] for _ in range(n)])
+    return f @ s0.box.vects, f
 
 
 def _inbox(s, np):
@@ -742,6 +823,28 @@ def _corr_slip_one(ctx, rng, ref, caseseed, it0, it, dyadic):
         _cmp(ctx, 'ddvectors:pbc', 'DifferentialDisplacement (systems with different pbc flags).ddvectors',
              _guard(lambda: am.defect.DifferentialDisplacement(s0, s1q, neighbors=nl0, reference=0).ddvectors[rows_]), o2,
              exact, dict(info, pbc1=p2), decided=_expect_pairs(s0, s1q, (V_, tuple(p2)), nl0, np)[3][rows_])
+    if it % 2 == 0:
+        # per-atom displacements chosen in the fractional basis (every component below half a cell), system_1 not wrapped
+        uf_, _ = _frac_displacements(rng, s0, np)
+        s1f = _system(s0, s0.atoms.pos + uf_, pbc=sc['pbc'])
+        of_ = ctx.driver.ask(f'disp {_cell(s1f)} {n} {cm.frs(s0.atoms.pos)} {cm.frs(s1f.atoms.pos)}')
+        ctx.stats.case('disp:fractional', canon + (float(uf_[0, 0]),))
+        _, nf_, df_ = _mi(V_, pb_, uf_, np)
+        _cmp(ctx, 'displacement:fractional', 'am.displacement (displacements below half a cell in every box-relative component)',
+             _guard(lambda: am.displacement(s0, s1f)), of_, exact, info, decided=df_ & (np.abs(nf_) <= 1).all(1))
+    if it % 3 == 2:
+        # the same pair of systems with the Cartesian axes permuted / reflected and the box vectors in another order
+        Rm_, rows_ = _perm_frame(rng, np)
+        s0r = _reframed(s0, Rm_, rows_, np, pbc=sc['pbc'])
+        s1r = _system(s0r, s1.atoms.pos @ Rm_.T, pbc=s0r.pbc)
+        posr = cm.frs(s0r.atoms.pos) + ' ' + cm.frs(s1r.atoms.pos)
+        infr = dict(info, frame={'R': Rm_.tolist(), 'rows': rows_}, box=s0r.box.vects.tolist())
+        ctx.stats.case('disp:permuted-frame', canon + (tuple(Rm_.ravel()), tuple(rows_)))
+        _cmp(ctx, 'displacement:frame', 'am.displacement (axes permuted / reflected, box vectors reordered)',
+             _guard(lambda: am.displacement(s0r, s1r)), ctx.driver.ask(f'disp {_cell(s1r)} {n} {posr}'), exact, infr, decided=dec_disp)
+        _cmp(ctx, 'slip_vector:frame', 'slip_vector (axes permuted / reflected, box vectors reordered)',
+             _guard(lambda: am.defect.slip_vector(s0r, s1r, neighbors=nl0)[sel]),
+             ctx.driver.ask(f'slip {_cell(s0r)} {n} {posr} {nlt} {_sel_tokens(sel)}'), exact, infr, decided=dec_slip)
     # slip vector: via neighbors= and via cutoff= (the list must be system_0's) -----------
     out = ctx.driver.ask(f'slip {_cell(s0)} {n} {pos} {nlt} {_sel_tokens(sel)}')
     ctx.stats.case('slip', canon, sample=info)
@@ -892,7 +995,10 @@ def _corr_strain_one(ctx, rng, ref, nl0, caseseed, it0, it):
     np = _np()
     import atomman as am
     s0, name, a, shells, size = ref
-    kind = ['general', 'field', 'rotation', 'field2', 'strain', 'general', 'rotation', 'strain', 'field'][it % 9]
+    kind = ['general', 'field', 'rotation', 'field2', 'strain', 'sparse', 'rotation', 'strain', 'field'][it % 9]
+    if kind == 'sparse':
+        # F with a single off-diagonal entry / triangular F: deformed cells with zero entries in any position
+        kind = rng.choice(['single', 'single', 'lower', 'upper'])
     n = s0.natoms
     cutf, coordn = shells[0]
     cut = cutf * a
@@ -942,7 +1048,7 @@ def _corr_strain_one(ctx, rng, ref, nl0, caseseed, it0, it):
     ctx.extra['lstsq_residual_max'] = max(ctx.extra.get('lstsq_residual_max', 0.0), res)
     if res > 1e-10:
         ctx.disagree('lstsq:residual', f'numpy lstsq result violates the normal equations (relative residual {res:.2e})', info)
-    if F is not None and it % 4 == 0:
+    if F is not None and (it % 4 == 0 or kind in ('single', 'lower', 'upper')):
         # differential displacement with two different cells (system_1 carries the deformed box)
         offs = np.concatenate([[0], np.cumsum([len(nl0[i]) for i in range(n)])])
         rows = np.concatenate([np.arange(offs[i], offs[i + 1]) for i in sel]).astype(int)
@@ -1079,10 +1185,10 @@ def correspond(ctx):
     rng = ctx.rng
     for it in range(ctx.n(10, 45)):
         _guarded_case(ctx, 'corr', _corr_slip, rng.getrandbits(48), it)
-    for it in range(ctx.n(8, 40)):
+    for it in range(ctx.n(7, 40)):
         _guarded_case(ctx, 'corr', _corr_strain, rng.getrandbits(48), it)
     _corr_match(ctx, rng.getrandbits(48), ctx.n(250, 2500))
-    for it in range(ctx.n(6, 40)):
+    for it in range(ctx.n(5, 40)):
         _guarded_case(ctx, 'corr', _strain_sequence, rng.getrandbits(48), it, True)
     for it in range(ctx.n(6, 40)):
         _guarded_case(ctx, 'corr', _dd_sequence, rng.getrandbits(48), it, True)
@@ -1235,6 +1341,31 @@ def _search_slip_one(ctx, rng, ref, caseseed, it0, it, dyadic):
                  f'imposed displacement taken through the periodic boundaries is {exp_disp[max(k, 0)].tolist()} ({name} {size}, '
                  f'box {np.round(V, 6).tolist()}, pbc {list(pb)}, rigid slip {sc["uA"].tolist()} / {sc["uB"].tolist()}'
                  f'{", atoms moved by box vectors" if wrapped else ""})', k)
+    # per-atom displacements chosen in the fractional basis, every component below half a cell, system_1 NOT wrapped (then
+    # atoms moved by box vectors): the displacement is the shortest periodic image, which in a tilted cell differs from the
+    # raw difference for many of them ----------------------------------------------------------------------------------------
+    uf, ff = _frac_displacements(rng, s0, np, uniform=it % 3 == 1)
+    for wr_ in (False, True):
+        s1f = _system(s0, s0.atoms.pos + uf, pbc=sc['pbc'])
+        if wr_:
+            s1f = _system(s0, _wrapshift(rng, s1f, np), pbc=sc['pbc'])
+        ef, nf, df = _mi(V, pb, s1f.atoms.pos - s0.atoms.pos, np)
+        df &= (np.abs(nf) <= 1).all(1)
+        ctx.stats.case('oracle:disp-fractional', canon + (wr_, float(uf[0, 0])), nontrivial=bool(np.abs(nf).any()))
+        ctx.extra['frac_disp_images_taken'] = ctx.extra.get('frac_disp_images_taken', 0) + int((np.abs(nf).any(1) & df).sum())
+        for bref in ('final', 'initial'):
+            d = _guard(lambda: am.displacement(s0, s1f, box_reference=bref))
+            if isinstance(d, _Raised):
+                fail('displacement:raises', f'displacement(box_reference={bref!r}) raised {d.text}')
+                continue
+            k = bad(d, ef, max(tol, 1e-12), df)
+            if k is not None:
+                fail('displacement:fractional', f'displacement(box_reference={bref!r}) of atom {k} is {d[k].tolist() if k >= 0 else d.shape}; '
+                     f'imposed displacement {uf[max(k, 0)].tolist()} = {ff[max(k, 0)].tolist()} in box-relative components (all below 1/2), its '
+                     f'shortest periodic image is {ef[max(k, 0)].tolist()} ({name} {size}, box {np.round(V, 6).tolist()}, pbc {list(pb)}'
+                     f'{", atoms moved by box vectors" if wr_ else ", system_1 not wrapped"})', k, fractional=ff[max(k, 0)].tolist(),
+                     wrapped_variant=wr_)
+                break
     if it % 2 == 0:
         # options and refusals of displacement(); fresh results
         d = _guard(lambda: am.displacement(s0, s1, box_reference=None))
@@ -1518,19 +1649,25 @@ def _search_slip_one(ctx, rng, ref, caseseed, it0, it, dyadic):
     _, Rm = _rand_axes(random.Random(caseseed * 3 + it), np)
     if np.abs(Rm - np.identity(3)).max() < 1e-9:
         Rm = np.array([[0.0, -1.0, 0.0], [0.6, 0.0, 0.8], [-0.8, 0.0, 0.6]])
-    s0r = _system(s0, s0.atoms.pos @ Rm.T, vects=s0.box.vects @ Rm.T, origin=Rm @ s0.box.origin, pbc=sc['pbc'])
-    s1r = _system(s0r, s1.atoms.pos @ Rm.T, pbc=sc['pbc'])
-    ctx.stats.case('oracle:rotated-frame', canon + (tuple(Rm.ravel()),))
+    rows_ = [0, 1, 2]
+    if random.Random(caseseed * 5 + it).random() < 0.5:
+        # ... or with the Cartesian axes permuted / reflected and the box vectors in another order (cells whose zero
+        # entries sit above the diagonal, left-handed cells)
+        Rm, rows_ = _perm_frame(random.Random(caseseed * 7 + it), np)
+        ctx.extra['slip_permuted_frames'] = ctx.extra.get('slip_permuted_frames', 0) + 1
+    s0r = _reframed(s0, Rm, rows_, np, pbc=sc['pbc'])
+    s1r = _system(s0r, s1.atoms.pos @ Rm.T, pbc=s0r.pbc)
+    ctx.stats.case('oracle:rotated-frame', canon + (tuple(Rm.ravel()), tuple(rows_)))
     resr = _guard(lambda: (am.displacement(s0r, s1r), am.defect.slip_vector(s0r, s1r, neighbors=nl0),
                            am.defect.DifferentialDisplacement(s0r, s1r, neighbors=nl0, reference=0).ddvectors))
     if isinstance(resr, _Raised):
-        fail('rotated:raises', f'{resr.text} with both systems rotated by {Rm.tolist()}', rotation=Rm.tolist())
+        fail('rotated:raises', f'{resr.text} with both systems rotated by {Rm.tolist()}, box vectors in the order {rows_}', rotation=Rm.tolist())
     else:
         for nm, x, y in zip(('displacement', 'slip_vector', 'ddvectors'), res0, resr):
             mk = masks[nm]
             if x.shape != y.shape or (mk.any() and np.abs(y - x @ Rm.T)[mk].max() > 40e-9 * L):
-                fail('rotated:' + nm, f'{nm} of the rotated pair of systems is not the rotated {nm} (rotation {Rm.tolist()})',
-                     rotation=Rm.tolist())
+                fail('rotated:' + nm, f'{nm} of the rotated pair of systems is not the rotated {nm} (rotation {Rm.tolist()}, box '
+                     f'vectors in the order {rows_}: cell {np.round(s0r.box.vects, 6).tolist()}, pbc {list(s0r.pbc)})', rotation=Rm.tolist())
     if coord is not None and dec_disp[adj].all():
         sgn = rng.choice([1.0, -1.0])
         mr, nr = (Rm @ np.array(m)).tolist(), (sgn * (Rm @ np.array(nn))).tolist()
@@ -1685,21 +1822,35 @@ def _search_homog(ctx, caseseed, it, reps=4):
     rng = random.Random(caseseed)
     # (every sixth reference is bcc-like and analysed as a free block: edge / corner atoms with 2 / 1 neighbours)
     block = it % 6 == 5
-    ref = _reference(rng, rng.choice(['bcc', 'B2', 'bcc']) if block else None, False)
+    # (every third reference is held in an ORTHOGONAL cell, not re-described: besides the usual deformations it is put under
+    #  the six shears with a SINGLE off-diagonal entry of F and a lower / an upper triangular F: the deformed cells
+    #  vects.F^T then carry their only tilt entries in each of the six positions, above as well as below the diagonal)
+    ortho = it % 3 == 1 and not block
+    if ortho:
+        ref = _reference(rng, rng.choice(['fcc', 'bcc', 'L12', 'B2', 'fcc-bct']), False, shear=False)
+    else:
+        ref = _reference(rng, rng.choice(['bcc', 'B2', 'bcc']) if block else None, False)
     s0, name, a, shells, size = ref
     nl0 = s0.neighborlist(cutoff=shells[0][0] * a)
     for rep in range(reps):
-        _search_homog_one(ctx, rng, ref, nl0, caseseed, it, it * reps + rep, block and rep % 2 == 1)
+        _search_homog_one(ctx, rng, ref, nl0, caseseed, it, it * reps + rep, block and rep % 2 == 1, reframe=not ortho)
+    if ortho:
+        for w in range(8):
+            _search_homog_one(ctx, rng, ref, nl0, caseseed, it, 4 * (it * 8 + w) + rng.choice([0, 0, 1, 2]), False,
+                              kind=('single' if w < 6 else 'lower' if w == 6 else 'upper'), where=w, reframe=False)
 
 
-def _search_homog_one(ctx, rng, ref, nl0, caseseed, it0, it, block=False):
+def _search_homog_one(ctx, rng, ref, nl0, caseseed, it0, it, block=False, kind=None, where=None, reframe=True):
     np = _np()
     import atomman as am
     s0, name, a, shells, size = ref
-    kind = ['general', 'rotation', 'strain'][it % 3]
+    if kind is None:
+        kind = ['general', 'rotation', 'strain'][it % 3]
+        if it % 8 == 6:
+            kind = rng.choice(['single', 'lower', 'upper'])
     n = s0.natoms
     cut = shells[0][0] * a
-    F = _rand_F(rng, kind)
+    F = _rand_F(rng, kind, where)
     pbcv = (True, True, True)
     if it % 4 == 3 or block:
         # periodicity switched off in 1-3 directions: surface / edge / corner atoms with few neighbours, down to
@@ -1711,6 +1862,15 @@ def _search_homog_one(ctx, rng, ref, nl0, caseseed, it0, it, block=False):
             pbcv = rng.choice([(False, False, False), (False, False, True), (True, False, False)])
         s0 = _system(s0, s0.atoms.pos.copy(), pbc=pbcv)
         nl0 = s0.neighborlist(cutoff=cut)
+    frame = None
+    if reframe and rng.random() < 0.35:
+        # the same crystal with the Cartesian axes permuted / reflected and the box vectors in another order (the
+        # neighbour list, being a list of indices, stays what it is)
+        Rm_, rows_ = _perm_frame(rng, np)
+        s0 = _reframed(s0, Rm_, rows_, np)
+        pbcv = tuple(bool(x) for x in s0.pbc)
+        frame = {'R': Rm_.tolist(), 'rows': rows_}
+        ctx.extra['homog_permuted_frames'] = ctx.extra.get('homog_permuted_frames', 0) + 1
     s1 = _deform(s0, F)
     wrapped = it % 4 == 1
     nl1 = s1.neighborlist(cutoff=cut * 1.04)
@@ -1731,8 +1891,9 @@ def _search_homog_one(ctx, rng, ref, nl0, caseseed, it0, it, block=False):
         # same configuration, atoms moved by box vectors (the list is built before: nlist needs atoms in the box)
         s1 = _system(s1, _wrapshift(rng, s1, np))
     base = {'op': 'search-homog', 'caseseed': caseseed, 'it': it0, 'variant': it, 'crystal': name, 'a': a, 'size': list(size),
-            'F': F, 'kind': kind, 'cutoff': cut, 'wrapped': wrapped, 'pbc': list(pbcv)}
-    canon = (name, a, size, repr(F), cut, wrapped, pbcv)
+            'F': F, 'kind': kind, 'cutoff': cut, 'wrapped': wrapped, 'pbc': list(pbcv), 'frame': frame,
+            'box0': s0.box.vects.tolist(), 'box1': s1.box.vects.tolist()}
+    canon = (name, a, size, repr(F), cut, wrapped, pbcv, repr(frame))
     ctx.stats.case('oracle:homog:' + kind, canon, sample=base)
     Fq = _fr_mat(F)
     Finv = _inv3(Fq)
@@ -3331,6 +3492,224 @@ def _sources(ctx, caseseed, it, tie):
                         break
 
 
+# ----------------------------------------------------------------------------------------
+# counts and thresholds: MANY complete shells (lists of 100-250 neighbours built by atomman from the cutoff, > 65536
+# pairs) and MANY atoms (> 4096 / 8192 / ... atoms); expected neighbours from an independent exact lattice count
+# ----------------------------------------------------------------------------------------
+_LATTICE_SHELLS = {}
+
+
+def _lattice_shells(lat, R=9):
+    """[(r2, [offsets])] of the fcc / bcc lattice, ascending; lengths in units of a/2, exact integers (complete up to
+    radius R)."""
+    if lat not in _LATTICE_SHELLS:
+        out = {}
+        for x in range(-R, R + 1):
+            for y in range(-R, R + 1):
+                for z in range(-R, R + 1):
+                    r2 = x * x + y * y + z * z
+                    if r2 == 0 or r2 > R * R:
+                        continue
+                    if ((x + y + z) % 2 == 0) if lat == 'fcc' else (x % 2 == y % 2 == z % 2):
+                        out.setdefault(r2, []).append((x, y, z))
+        _LATTICE_SHELLS[lat] = [(k, out[k]) for k in sorted(out)]
+    return _LATTICE_SHELLS[lat]
+
+
+def _exact_neighbours(K, D, pbc, offsets, np):
+    """neighbour pairs (I, J) of the lattice sites K (integer coordinates in units of a/2, inside the grid D) at the
+    given integer offsets, through the periodic faces of the supercell; exact integer arithmetic, no distances."""
+    n = len(K)
+    idx = -np.ones(tuple(D), dtype=np.int64)
+    idx[K[:, 0], K[:, 1], K[:, 2]] = np.arange(n)
+    T = K[:, None, :] + offsets[None, :, :]
+    valid = np.ones(T.shape[:2], dtype=bool)
+    for k in range(3):
+        if pbc[k]:
+            T[:, :, k] %= D[k]
+        else:
+            valid &= (T[:, :, k] >= 0) & (T[:, :, k] < D[k])
+            T[:, :, k] = np.clip(T[:, :, k], 0, D[k] - 1)
+    Jm = idx[T[:, :, 0], T[:, :, 1], T[:, :, 2]]
+    assert (Jm[valid] >= 0).all()
+    I = np.repeat(np.arange(n), len(offsets)).reshape(n, -1)[valid]
+    J = Jm[valid]
+    o = np.lexsort((J, I))
+    return I[o], J[o]
+
+
+def _search_big(ctx, caseseed, it):
+    """rigid slip of a half crystal analysed with (a) a LARGE complete-shell cutoff (10-12 shells: 130-250 neighbours per atom,
+    more than 40 atoms and ghosts per cutoff-sized bin of the list builder, > 65536 pairs) and (b) MANY atoms (just above
+    4096, in thorough also 8192 / 16384 / 65536) with one or two shells.  The neighbour list is built by atomman from the
+    cutoff; the expected number of neighbours across the plane comes from an exact integer lattice count."""
+    np = _np()
+    import atomman as am
+    rng = random.Random(caseseed)
+    lat = rng.choice(['fcc', 'bcc'])
+    variant = 'shells' if it % 2 == 0 else 'atoms'
+    shells = _lattice_shells(lat)
+    if variant == 'shells':
+        k = rng.choice([10, 11, 12])
+        if ctx.thorough and it % 6 == 4:
+            k = next(kk for kk in range(1, len(shells)) if sum(len(o) for _, o in shells[:kk]) > 1000)
+    else:
+        k = rng.choice([1, 2])
+    c2 = (shells[k - 1][0] + shells[k][0]) / 2          # cutoff^2 strictly between the k-th and the (k+1)-th shell
+    a = rng.choice([4.05, 3.3, 2.87, 4.0, 3.52])
+    cut = 0.5 * a * math.sqrt(c2)
+    offsets = np.array([o for _, offs in shells[:k] for o in offs], dtype=np.int64)
+    axis = rng.randrange(3)
+    pbc = [True, True, True]
+    r = rng.random()
+    if r < 0.5:
+        pbc[axis] = False
+    elif r < 0.65:
+        pbc[(axis + 1) % 3] = False
+    per = 4 if lat == 'fcc' else 2
+    # periodic edges m a with m a / 2 > cutoff + the largest relative displacement (0.36 a) + margin: no image flips
+    mper = int(math.ceil(2 * (cut / a + 0.4) + 1e-9))
+    size = [mper + rng.choice([0, 0, 1]) for _ in range(3)]
+    if not pbc[axis]:
+        size[axis] = max(2, rng.choice([mper - 2, mper - 1, mper]))
+    if variant == 'atoms':
+        thr = rng.choice([4096, 4096, 8192, 16384, 65536]) if ctx.thorough else 4096
+        m1, m2 = rng.randint(max(mper, 7), 16), rng.randint(max(mper, 7), 16)
+        size = [m1, m2, max(mper, thr // (per * m1 * m2) + 1)]
+        rng.shuffle(size)
+    size = tuple(size)
+    sites = [[0, 0, 0], [.5, .5, 0], [.5, 0, .5], [0, .5, .5]] if lat == 'fcc' else [[0, 0, 0], [.5, .5, .5]]
+    s0 = am.System(atoms=am.Atoms(atype=1, pos=sites), box=am.Box.cubic(a), scale=True).supersize(*size)
+    s0.pbc = tuple(pbc)
+    n = s0.natoms
+    Kf = 2 * s0.atoms.pos / a
+    K = np.rint(Kf).astype(np.int64)
+    D = [2 * m for m in size]
+    assert np.abs(Kf - K).max() < 1e-9 and (K >= 0).all() and (K < np.array(D)).all()
+    I, J = _exact_neighbours(K, D, pbc, offsets, np)
+    coordx = np.bincount(I, minlength=n)
+    # the slip
+    p = rng.randrange(1, D[axis] - 2)
+    mid = (p + rng.choice([0.5, 0.25, 0.75])) * a / 2
+    side = K[:, axis] > p
+
+    def vec(sc_):
+        v = np.array([rng.randint(-int(sc_ * a * 1000), int(sc_ * a * 1000)) / 1000 for _ in range(3)])
+        v[axis] = 0.0
+        for k_ in range(3):
+            if not pbc[k_]:
+                v[k_] = 0.0               # (atoms stay inside the cell along non-periodic directions)
+        return v
+    uA = vec(0.25)
+    uB = vec(0.1) if rng.random() < 0.4 else np.zeros(3)
+    uB = np.where(np.abs(uA - uB) > 0.25 * a, 0.0, uB)
+    if not (uA - uB).any():
+        uA[(axis + 2) % 3] += 0.125 * a
+    du = np.where(side[:, None], uA, uB)
+    rel = np.where(side[:, None], uA - uB, uB - uA)
+    across = np.bincount(I, weights=(side[I] != side[J]).astype(float), minlength=n).astype(int)
+    exp_slip = across[:, None] * rel
+    exp_dd = du[J] - du[I]
+    s1 = _system(s0, s0.atoms.pos + du, pbc=tuple(pbc))
+    s1c = _inbox(s1, np)
+    base = {'op': 'search-big', 'caseseed': caseseed, 'it': it, 'lattice': lat, 'a': a, 'size': list(size), 'natoms': n,
+            'shells': k, 'cutoff': cut, 'cutoff_over_a': cut / a, 'neighbours_per_bulk_atom': int(coordx.max()), 'pairs': int(len(I)),
+            'pbc': list(pbc), 'normal_axis': axis, 'plane': mid, 'u_above': uA.tolist(), 'u_below': uB.tolist(), 'variant': variant}
+    ctx.stats.case('oracle:big:' + variant, (lat, a, size, k, tuple(pbc), axis, mid, tuple(uA), tuple(uB)), sample=base)
+    ctx.extra['big_neighbours_max'] = max(ctx.extra.get('big_neighbours_max', 0), int(coordx.max()))
+    ctx.extra['big_pairs_max'] = max(ctx.extra.get('big_pairs_max', 0), int(len(I)))
+    ctx.extra['big_atoms_max'] = max(ctx.extra.get('big_atoms_max', 0), n)
+    L = float(np.abs(s0.box.vects).max())
+    tol = 1e-9 * L
+
+    def fail(key, what, i=None, **kw):
+        ctx.violate(key, what + f' [{lat} {size}, a = {a}, pbc {pbc}, {k} complete shells inside the cutoff {cut / a:.4f} a = '
+                    f'{int(coordx.max())} neighbours per bulk atom, {n} atoms, {len(I)} pairs; upper half (axis {axis} above {mid:.4f}) '
+                    f'moved by {uA.tolist()}, lower by {uB.tolist()}]', dict(base, atom=i, **kw))
+    # displacement
+    for bref in ('final', 'initial'):
+        d = _guard(lambda: am.displacement(s0, s1, box_reference=bref))
+        if isinstance(d, _Raised):
+            fail('displacement:raises', f'displacement(box_reference={bref!r}) raised {d.text}')
+        else:
+            kb = -1 if d.shape != du.shape else _bad(d, du, tol)
+            if kb is not None:
+                fail('displacement', f'displacement(box_reference={bref!r}) of atom {kb} is {d[kb].tolist() if kb >= 0 else d.shape}, '
+                     f'imposed {du[max(kb, 0)].tolist()}', kb)
+    # the list atomman builds for the cutoff (the one the cutoff= paths use)
+    nl = _guard(lambda: am.NeighborList(system=s0, cutoff=cut))
+    lists_ok = False
+    if isinstance(nl, _Raised):
+        fail('nlist:raises', f'NeighborList(cutoff=) raised {nl.text}')
+        nl = None
+    else:
+        got = np.asarray(nl.coord)
+        In, Jn = _pairs(nl, n, np)
+        o = np.lexsort((Jn, In))
+        lists_ok = len(In) == len(I) and np.array_equal(In[o], I) and np.array_equal(Jn[o], J)
+    for how in ('cutoff=', 'neighbors='):
+        if how == 'neighbors=' and nl is None:
+            continue
+        if how == 'cutoff=' and s1c is None:
+            continue
+        sv = _guard(lambda: am.defect.slip_vector(s0, s1c, cutoff=cut) if how == 'cutoff=' else am.defect.slip_vector(s0, s1, neighbors=nl))
+        if isinstance(sv, _Raised):
+            fail('slip_vector:raises', f'slip_vector({how}) raised {sv.text}')
+            continue
+        kb = -1 if sv.shape != exp_slip.shape else _bad(sv, exp_slip, tol * 20)
+        if kb is not None:
+            kk = max(kb, 0)
+            fail('slip_vector', f'slip_vector({how}) of atom {kb} is {sv[kb].tolist() if kb >= 0 else sv.shape}, expected {int(across[kk])} '
+                 f'neighbours across the plane (exact lattice count) x (own - other half displacement {rel[kk].tolist()}) = '
+                 f'{exp_slip[kk].tolist()}; the complete shells hold {int(coordx[kk])} neighbours of this atom'
+                 + (f', the list built for the cutoff {int(got[kk])}' if nl is not None else ''), kb)
+            break
+    # differential displacement of every pair of the cutoff's list
+    if s1c is not None:
+        dd = _guard(lambda: am.defect.DifferentialDisplacement(s0, s1c, cutoff=cut, reference=0).ddvectors)
+        if isinstance(dd, _Raised):
+            fail('ddvectors:raises', f'DifferentialDisplacement(cutoff=, reference=0) raised {dd.text}')
+        elif len(dd) != len(I):
+            fail('ddvectors', f'DifferentialDisplacement(cutoff=, reference=0): {len(dd)} pair vectors, the complete shells hold '
+                 f'{len(I)} pairs')
+        elif lists_ok:
+            e_ = du[Jn] - du[In]
+            kb = _bad(dd, e_, tol * 2)
+            if kb is not None:
+                fail('ddvectors', f'DifferentialDisplacement(cutoff=, reference=0).ddvectors[{kb}] (pair {int(In[kb])}-{int(Jn[kb])}) = '
+                     f'{dd[kb].tolist()}, difference of the imposed displacements {e_[kb].tolist()}', pair=kb)
+    if variant != 'atoms':
+        return
+    # many atoms: homogeneous deformation, G = F^-T at EVERY atom, Nye = 0, displacement, dd
+    F = _rand_F(rng, rng.choice(['general', 'rotation', 'strain', 'single']))
+    s0p = _system(s0, s0.atoms.pos.copy(), pbc=(True, True, True))
+    s1h = _deform(s0p, F)
+    Fq = _fr_mat(F)
+    Finv = _inv3(Fq)
+    Gf = np.array([[float(Finv[j][i]) for j in range(3)] for i in range(3)])
+    base['F'] = F
+    st = _guard(lambda: am.defect.Strain(s1h, cutoff=cut, basesystem=s0p))
+    G = st if isinstance(st, _Raised) else _guard(lambda: st.G)
+    if isinstance(G, _Raised):
+        fail('Strain:raises', f'Strain(cutoff=, basesystem=) raised {G.text}')
+    else:
+        kb = -1 if G.shape != (n, 3, 3) else _bad(G.reshape(n, 9), np.tile(Gf.ravel(), (n, 1)), 2e-9)
+        if kb is not None:
+            fail('Strain.G', f'Strain(cutoff=).G[{kb}] = {G[kb].tolist() if kb >= 0 else G.shape}, inverse transpose of F = {Gf.tolist()}', kb)
+        ny = _guard(lambda: st.nye)
+        if isinstance(ny, _Raised):
+            fail('Strain:raises', f'Strain(cutoff=).nye raised {ny.text}')
+        elif not np.isfinite(ny).all() or np.abs(ny).max() > 1e-8 / a:
+            kb = int(np.abs(ny).reshape(n, -1).max(1).argmax())
+            fail('Strain.nye', f'Strain(cutoff=).nye[{kb}] = {ny[kb].tolist()} for a homogeneous deformation (expected 0)', kb)
+    exp_h = s0p.atoms.pos @ (np.array(F) - np.identity(3)).T
+    d = _guard(lambda: am.displacement(s0p, s1h))
+    kb = -2 if isinstance(d, _Raised) else -1 if d.shape != exp_h.shape else _bad(d, exp_h, tol)
+    if kb is not None:
+        fail('displacement', f'displacement under the homogeneous F = {F}: {d.text if kb == -2 else d[kb].tolist() if kb >= 0 else d.shape}, '
+             f'imposed (F-I)x = {exp_h[max(kb, 0)].tolist()}', kb)
+
+
 def search(ctx, broken):
     rng = random.Random(ctx.seed * 7919 + 17)
     mult = 2 if broken else 1
@@ -3350,6 +3729,8 @@ def search(ctx, broken):
         _guarded_case(ctx, 'search', _search_field, rng.getrandbits(48), it)
     for it in range(ctx.n(5, 30) * mult):
         _guarded_case(ctx, 'search', _sources, rng.getrandbits(48), it, False)
+    for it in range(ctx.n(2, 12) * mult):
+        _guarded_case(ctx, 'search', _search_big, rng.getrandbits(48), it)
 
 
 def _guarded_case(ctx, phase, f, caseseed, it, *more):
@@ -3367,7 +3748,7 @@ def _guarded_case(ctx, phase, f, caseseed, it, *more):
         tb = traceback.format_exc().strip().splitlines()
         op = {'_strain_sequence': 'sobj', '_dd_sequence': 'dobj', '_search_p_supply': 'search-psupply', '_corr_slip': 'corr-slip',
               '_corr_strain': 'corr-strain', '_search_slip': 'search-slip', '_search_homog': 'search-homog',
-              '_shells': 'shells', '_sources': 'sources', '_search_field': 'search-field'}.get(f.__name__, f.__name__)
+              '_shells': 'shells', '_sources': 'sources', '_search_field': 'search-field', '_search_big': 'search-big'}.get(f.__name__, f.__name__)
         if op in ('sobj', 'dobj', 'shells', 'sources'):
             op = ('corr-' if more and more[0] else 'search-') + op
         (ctx.disagree if phase == 'corr' else ctx.violate)(
@@ -3403,6 +3784,8 @@ def replay(ctx, payload):
         _sources(ctx, r['caseseed'], r['it'], op == 'corr-sources')
     elif op == 'search-field':
         _search_field(ctx, r['caseseed'], r['it'])
+    elif op == 'search-big':
+        _search_big(ctx, r['caseseed'], r['it'])
     else:
         correspond(ctx)
         search(ctx, True)
